@@ -1,6 +1,7 @@
-(* posix_accepted: for every supported tree with well-classified words, the
-   lexer of pkglint turns the printed program into exactly the terminal string
-   the tree is meant to be, and that string is a sentence of shell.y. *)
+(* posix_accepted: for every tree that is the POSIX reading of its own text and
+   whose words are well classified, the lexer of pkglint turns the printed
+   program into exactly the terminal string the tree is meant to be; unless the
+   tree uses `for name ; do`, that string is a sentence of shell.y. *)
 From Coq Require Import NArith ZArith List Bool Lia.
 From PV Require Import Lib.Bytes Gen.ShellGrammar Model.ShellLex Spec.PosixSh
   Proofs.ShellLex Proofs.PosixGrammar Proofs.PosixLex.
@@ -17,32 +18,19 @@ Lemma lex_stream_end fuel a f c i :
   lex_stream (S fuel) (mkLexer [] [] a f c i) = Lexed [].
 Proof. reflexivity. Qed.
 
-Lemma supported_inv p : supported p = true ->
-  exists r, flow_clist false p = Some r /\ sw_clist p = true.
-Proof.
-  unfold supported. destruct (flow_clist false p) as [r |]; [| discriminate].
-  intro H. exists r. split; [reflexivity | exact H].
-Qed.
-
+(* the lexer is right on the whole fragment, `for name ; do` included *)
 Theorem lexer_recovers_terms : forall p : program,
-  wf_words p = true -> supported p = true -> shell_lex (tokens p) = Lexed (terms p).
+  wf_words p = true -> faithful p = true -> shell_lex (tokens p) = Lexed (terms p).
 Proof.
-  intros p Hwf Hsup. destruct (supported_inv p Hsup) as (r & Hfl & Hsw).
+  intros p Hwf Hfa.
   destruct lexer_reads_tree as (_ & _ & _ & _ & _ & _ & _ & _ & Hcl).
-  destruct (Hcl p false r 0%Z 0%Z Hwf Hfl (or_intror Hsw)) as [_ (f' & c' & _ & Hrun)].
+  destruct (Hcl p (-1)%Z (-1)%Z Hwf Hfa safe_m1) as (a' & f' & c' & _ & _ & Hrun).
   specialize (Hrun []). rewrite app_nil_r in Hrun.
   unfold shell_lex, new_lexer, tokens. fold (toks (print_clist p)).
   pose proof (length_tm_toks (print_clist p)) as Hlen.
   replace (2 * length (toks (print_clist p)) + 1)%nat
     with (length (tm (print_clist p)) + S (2 * length (toks (print_clist p)) - length (tm (print_clist p))))%nat by lia.
   rewrite (Hrun _). rewrite lex_stream_end. cbn [prepend]. rewrite app_nil_r. reflexivity.
-Qed.
-
-Lemma supported_nosemi p : wf_words p = true -> supported p = true -> nosemi_clist p = true.
-Proof.
-  intros Hwf Hsup. destruct (supported_inv p Hsup) as (r & Hfl & Hsw).
-  destruct lexer_reads_tree as (_ & _ & _ & _ & _ & _ & _ & _ & Hcl).
-  destruct (Hcl p false r 0%Z 0%Z Hwf Hfl (or_intror Hsw)) as [Hns _]. exact Hns.
 Qed.
 
 Theorem terms_derivable : forall p : program,
@@ -57,7 +45,55 @@ Theorem posix_accepted : forall p : program,
   wf_words p = true -> supported p = true ->
   shell_lex (tokens p) = Lexed (terms p) /\ derives start_symbol (terms p).
 Proof.
-  intros p Hwf Hsup. split.
-  - apply lexer_recovers_terms; assumption.
-  - apply terms_derivable; [exact Hwf | apply supported_nosemi; assumption].
+  intros p Hwf Hsup. unfold supported in Hsup. apply andb_true_iff in Hsup. destruct Hsup as [Hfa Hns].
+  split; [apply lexer_recovers_terms | apply terms_derivable]; assumption.
 Qed.
+
+(* wf_words is the stricter of the two word disciplines *)
+Lemma name_ok_later w : name_ok w = true -> later_name_ok w = true.
+Proof.
+  intro H. destruct (name_ok_inv w H) as (Ha & _ & Hs). unfold later_name_ok.
+  rewrite Ha, assignment_like_shaped, Hs. reflexivity.
+Qed.
+
+Lemma simple_ok_posix_of assigns items : simple_ok assigns items = true -> simple_ok_posix assigns items = true.
+Proof.
+  unfold simple_ok, simple_ok_posix. intro H.
+  apply andb_true_iff in H. destruct H as [H Hne]. apply andb_true_iff in H. destruct H as [Ha Hi].
+  rewrite Ha, Hne. cbn [andb]. rewrite andb_true_r.
+  destruct items as [| [w | r] items]; try exact Hi.
+  apply andb_true_iff in Hi. destruct Hi as [Hw Hr]. rewrite Hr, andb_true_r.
+  destruct assigns; [exact Hw | apply name_ok_later; exact Hw].
+Qed.
+
+Ltac wfp_step :=
+  intros; cbn [wf_cmd wf_compound wf_else wf_items wf_body wf_pipe wf_andor wf_seq wf_clist
+               wfp_cmd wfp_compound wfp_else wfp_items wfp_body wfp_pipe wfp_andor wfp_seq wfp_clist] in *;
+  repeat match goal with
+  | H : (_ && _)%bool = true |- _ => apply andb_true_iff in H; destruct H
+  end;
+  repeat match goal with
+  | IH : ?a = true -> ?b = true, H : ?a = true |- _ => specialize (IH H)
+  end;
+  repeat match goal with
+  | H : ?x = true |- context [?x] => rewrite H
+  end;
+  reflexivity.
+
+Theorem wf_words_posix_of :
+  (forall c, wf_cmd c = true -> wfp_cmd c = true) /\
+  (forall k, wf_compound k = true -> wfp_compound k = true) /\
+  (forall e, wf_else e = true -> wfp_else e = true) /\
+  (forall i, wf_items i = true -> wfp_items i = true) /\
+  (forall b, wf_body b = true -> wfp_body b = true) /\
+  (forall p, wf_pipe p = true -> wfp_pipe p = true) /\
+  (forall a, wf_andor a = true -> wfp_andor a = true) /\
+  (forall q, wf_seq q = true -> wfp_seq q = true) /\
+  (forall l, wf_clist l = true -> wfp_clist l = true).
+Proof.
+  apply posix_mutind; try solve [wfp_step].
+  intros assigns items H. cbn [wf_cmd wfp_cmd] in *. apply simple_ok_posix_of. exact H.
+Qed.
+
+Corollary wf_words_is_stricter : forall p : program, wf_words p = true -> wf_words_posix p = true.
+Proof. destruct wf_words_posix_of as (_ & _ & _ & _ & _ & _ & _ & _ & H). exact H. Qed.
